@@ -347,7 +347,7 @@ func (w *walker) stmt(s ast.Stmt) bool {
 	case *ast.IncDecStmt:
 		w.exprAcc(s.X, "w")
 	case *ast.SendStmt:
-		w.expr(s.Chan)
+		w.exprAcc(s.Chan, "use")
 		w.expr(s.Value)
 	case *ast.AssignStmt:
 		w.assign(s)
@@ -418,7 +418,7 @@ func (w *walker) stmt(s ast.Stmt) bool {
 		w.held = b.entry.clone()
 		return s.Cond == nil && !b.hasBreak
 	case *ast.RangeStmt:
-		w.expr(s.X)
+		w.exprAcc(s.X, "use")
 		w.push()
 		defer w.pop()
 		if s.Tok == token.DEFINE {
@@ -619,7 +619,11 @@ func (w *walker) assign(s *ast.AssignStmt) {
 			if id, ok := unparen(l).(*ast.Ident); ok {
 				w.sc.setLit(id.Name, litOf(i), w.sc)
 			}
-			w.exprAcc(l, "w")
+			if _, whole := unparen(l).(*ast.SelectorExpr); whole && s.Tok == token.ASSIGN {
+				w.exprAcc(l, "set") // the whole field is replaced
+			} else {
+				w.exprAcc(l, "w")
+			}
 		}
 		return
 	}
@@ -726,8 +730,12 @@ func (w *walker) deferStmt(s *ast.DeferStmt) {
 
 // ---- expressions ----
 
-// exprAcc evaluates e as the location of a write ("w") or of an address-of ("addr");
-// the kind travels down the location path only (Atomicity events; nothing else depends on it).
+// exprAcc evaluates e as the location of a write ("w": element store, ++, op=, copy into;
+// "set": the whole field is assigned; "del": delete / clear), of an address-of ("addr") or
+// of a read that does not hand out the value ("use": indexed, ranged over, measured,
+// dereferenced, receiver of a call, path to a sub-field); the plain kind "" is a read of the
+// value as a whole ("val": assigned, passed on, returned, compared). The kind travels down
+// the location path only (Atomicity events; nothing else depends on it).
 func (w *walker) exprAcc(e ast.Expr, acc string) {
 	w.acc = acc
 	w.expr(e)
@@ -755,18 +763,21 @@ func (w *walker) expr(e ast.Expr) {
 	case *ast.ParenExpr:
 		w.exprAcc(x.X, acc)
 	case *ast.StarExpr:
-		w.exprAcc(x.X, acc)
+		w.exprAcc(x.X, orUse(acc))
 	case *ast.UnaryExpr:
-		if x.Op == token.AND {
+		switch x.Op {
+		case token.AND:
 			w.exprAcc(x.X, "addr")
-		} else {
+		case token.ARROW:
+			w.exprAcc(x.X, "use")
+		default:
 			w.expr(x.X)
 		}
 	case *ast.BinaryExpr:
 		w.expr(x.X)
 		w.expr(x.Y)
 	case *ast.IndexExpr:
-		w.exprAcc(x.X, acc)
+		w.exprAcc(x.X, orUse(acc))
 		w.expr(x.Index)
 	case *ast.IndexListExpr:
 		w.expr(x.X)
@@ -1024,7 +1035,7 @@ func (w *walker) operands(c *ast.CallExpr) {
 	switch f := unparen(c.Fun).(type) {
 	case *ast.SelectorExpr:
 		if !w.isImport(f.X) {
-			w.expr(f.X)
+			w.exprAcc(f.X, "use") // method call on it, or call of a function-typed field
 		}
 	case *ast.Ident, *ast.FuncLit:
 	default:
@@ -1033,8 +1044,11 @@ func (w *walker) operands(c *ast.CallExpr) {
 		}
 	}
 	for i, a := range c.Args {
-		if i == 0 && w.mutatingBuiltin(c.Fun) {
-			w.exprAcc(a, "w")
+		if kind := w.builtinAccess(c.Fun); i == 0 && kind != "" {
+			w.exprAcc(a, kind)
+			if kind == "del" {
+				w.atomDeleteOperand(a)
+			}
 		} else {
 			w.expr(a)
 		}
